@@ -26,6 +26,8 @@ pub struct Refusal {
     pub name: Option<String>,
     /// split the refusal itself into two writes
     pub split: bool,
+    /// answer with these bytes instead of the encoded refusal (for answers that are not LDAPMessages)
+    pub raw_answer: Option<Vec<u8>>,
 }
 
 #[derive(Clone, Debug, PartialEq, Eq)]
@@ -71,7 +73,10 @@ pub async fn refused_starttls(r: &Refusal, guard_s: u64) -> Result<Got, String> 
             let _ = s.flush().await;
             tokio::time::sleep(Duration::from_millis(20)).await;
         }
-        let b = ber::encode_min(&resp_node(id, &Resp::Extended { res: rr.res.clone(), name: rr.name.clone(), value: None }, None));
+        let b = match &rr.raw_answer {
+            Some(raw) => raw.clone(),
+            None => ber::encode_min(&resp_node(id, &Resp::Extended { res: rr.res.clone(), name: rr.name.clone(), value: None }, None)),
+        };
         if rr.split {
             let h = b.len() / 2;
             let _ = s.write_all(&b[..h]).await;
